@@ -426,6 +426,15 @@ Theorem C06_fetch_matches_digest_file_alias_refuted :
 Proof. exact file_alias_witness. Qed.
 Print Assumptions C06_fetch_matches_digest_file_alias_refuted.
 
+(* known finding oci-racing-pushes-all-succeed: under the schedule [0;1;0;1] two goroutines
+   pushing the same blob both pass the stat check and both rename their temp file onto the
+   blob path (both Push calls return nil); every sequential order refuses the second *)
+Theorem C06_repush_refused_oci_racing_refuted :
+  map ot_pc (oc_threads (oconf_run (oconf_init orace_progs) [0; 1; 0; 1]%nat)) = [OPush3 ex_layer; OPush3 ex_layer] /\
+  snd (run oci_step oci_init (concat orace_progs)) = [OOk; OErr EAlreadyExists].
+Proof. exact orace_both_renamed. Qed.
+Print Assumptions C06_repush_refused_oci_racing_refuted.
+
 (* ---- tie to the source ---- *)
 (* the media types descriptor.IsManifest accepts are exactly those content.Successors
    decodes, and there are five of them (the model's media type ids 1..5) *)
